@@ -1,5 +1,6 @@
 """per-property definitions and the decision procedure of DESIGN.md 3.7"""
 import os, re, json, time
+import json
 from common import *
 import coqstage
 
@@ -30,6 +31,9 @@ prop("C13",
               "rustc is the observed oracle (size_of/align_of table printed by the harness)"],
      impl="sizes")
 
+for _p in ("C01","C02","C03","C04","C05","C06","C07","C08","C09","C10","C11","C12","C14","C15","C17","C18"):
+    prop(_p, title=_p)
+
 def coq_side(ctx, P):
     """translator + build + property file + audit.  returns dict"""
     pid = ctx.pid
@@ -38,6 +42,9 @@ def coq_side(ctx, P):
     out["translate"] = tr
     if not tr["ok"]:
         out["failed"].append({"what": "translator", "detail": tr["log"][-3000:]})
+        return out
+    if not os.path.exists(os.path.join(COQ, "Properties", pid + ".v")):
+        out["failed"].append({"what": "coq", "detail": "Properties/%s.v does not exist yet" % pid})
         return out
     targets = ["Properties/%s.vo" % pid]
     if P["equiv"]:
